@@ -257,3 +257,8 @@ def main(report, tier, seed, workers, calibrate=False):
     nv = blocks[0]['obs']
     pick = [ob for ob in nv if ob.name == 'st_Gamma_udd4[1,2,3]'][0]
     witness_sat(report, pick, 'st_Gamma_udd4[1,2,3] + 1')
+
+
+def replay_payload(payload):
+    from .common import replay_blocks
+    return replay_blocks(build, payload)
